@@ -40,7 +40,7 @@ func propC06(r *Run) {
 		w.fs.PutDir(cfg.BaseDir, 0o700)
 		def := cfg.SetMap()[cfg.Default]
 		// distinctive user names (so that a leaked user list is recognisable in any response body)
-		pw := map[string]string{"zq-root-admin": "pw-of-root", "zq-second-admin": "pw-of-second", "zq-plain-user": "pw-of-plain", "zq-other-user": "pw-of-other", "ZQ-Plain-User": "pw-of-upper-plain", "zq-tiny-user": "pw-of-tiny"}
+		pw := map[string]string{"zq-root-admin": "pw-of-root", "zq-second-admin": "pw-of-second", "zq-plain-user": "pw-of-plain", "zq-other-user": "pw-of-other", "ZQ-Plain-User": "pw-of-upper-plain", "zq-tiny-user": "pw-of-tiny", "zq-plain-user@corp": "pw-of-at-corp", "zq-root-admin@corp": "pw-of-root-at-corp"}
 		admins := map[string]bool{"zq-root-admin": true, "zq-second-admin": true}
 		i := 0
 		for _, u := range sortedKeysA(pw) {
@@ -97,7 +97,26 @@ func propC06(r *Run) {
 		nreq := 10 + r.Choose("nreq", 40)
 		var trace []string
 		for k := 0; k < nreq; k++ {
-			switch r.Choose("between", 9) {
+			switch r.Choose("between", 10) {
+			case 9:
+				// a login with somebody else's password (in particular: a name that extends another
+				// name with '@...', the way LDAP bind names do) never yields a session
+				who := []string{"zq-plain-user@corp", "zq-root-admin@corp", "zq-plain-user", "zq-second-admin"}[r.Choose("cross-login-user", 4)]
+				other := []string{"zq-plain-user", "zq-root-admin", "zq-other-user", "zq-plain-user@corp"}[r.Choose("cross-login-password-of", 4)]
+				if who == other || pw[who] == pw[other] {
+					continue
+				}
+				c := &Call{Kind: "authenticate", Via: "api", Agent: a.idx, User: who, PW: pw[other]}
+				w.addClient([]*Call{c})
+				if wedge := w.settle(nil); wedge != "" {
+					r.FailOther("C10", wedgeSignature(wedge), "%s", wedge)
+				}
+				r.Logf("#%d login as %s with the password of %s -> %d", k, who, other, c.Status)
+				if c.Token != "" || c.OK {
+					r.Fail("token/issued-without-password", "/api/authenticate as %s with the password of %s answers %d and issues a session", who, other, c.Status)
+				}
+				r.Count("probe:cross-logins")
+				continue
 			case 8:
 				// a login request that does not carry both credentials (after whatever came before:
 				// handlers share the process, and state left by an earlier complete login must not
